@@ -92,8 +92,7 @@ def emptyCond (d : Desc) : Nat → Nat → Val → Option Bool
       match k, v with
       | .str, .str s => some (!s.isEmpty)
       | .bool _ _, .bool b => some b
-      | .f32, .nat n => some (n % 2 ^ 31 != 0)          -- Go float comparison: -0.0 == 0
-      | .f64, .nat n => some (n % 2 ^ 63 != 0)
+      -- floats: `x != 0 || 1/x < 0`, i.e. the bit pattern is non-zero (-0.0 is not empty); integers: `x != 0`
       | .bit, _ => none
       | _, .nat n => some (n != 0)
       | _, _ => none
